@@ -22,7 +22,7 @@ func (h *Harness) unwind() int {
 }
 
 // probe contracts shipped with the engine (name -> directory under engine/probe)
-var probeContracts = map[string]string{}
+var probeContracts = map[string]string{"probe1": "subscriber1", "probe2": "subscriber2"}
 
 func findHarness(fn string) *Harness {
 	for i := range registry {
@@ -45,4 +45,12 @@ var registry = []Harness{
 	{Prop: "C09", Pkg: "balance", Func: "VerifC09Locks", Link: []string{"netmap", "balance"},
 		Quick: [][]int{{0}, {1}},
 		Bound: "mint, two locks of one owner (amounts, until in -3..300 symbolic), optional burn of the first (0..y1), two ticks with symbolic epochs 1..300 (param: delivered directly / through the Netmap fan-out)"},
+	{Prop: "C08", Pkg: "netmap", Func: "VerifC08Resize", Link: []string{"netmap"},
+		Quick: [][]int{{10, 3, 1}, {3, 4, 0}, {3, 5, 2}, {2, 3, 1}, {4, 2, 1}},
+		Bound: "count c0 (param 0) set at epoch 0, t0 ticks (param 1), resize to symbolic count 0..6, t1 ticks (param 2, plus one if 0); symbolic queries snapshot(d) d in -1..7, snapshotByEpoch(q), listNodes(q2); one node per published map carrying its epoch"},
+	{Prop: "C06", Pkg: "netmap", Func: "VerifC06Tick", Link: []string{"netmap", "balance", "probe1", "probe2"},
+		Bound: "3 legacy candidates (Online, Maintenance, Offline->removed), 1 structured, subscribers Balance+probe1+probe2 (probe1 subscribed twice), probe2 refuses one symbolic epoch; two newEpoch invocations with symbolic epochs -2..1000 and symbolic Alphabet signature"},
+	{Prop: "C07", Pkg: "netmap", Func: "VerifC07Candidates", Link: []string{"netmap"},
+		Quick: [][]int{{2}}, Thorough: [][]int{{3}},
+		Bound: "k (param) consecutive operations, each with symbolic method (addPeer/addPeerIR/addNode/updateState/updateStateIR/deleteNode), symbolic target in the pool {n0,n1}, symbolic state in Z, symbolic Alphabet and node signatures; reference model tracks n0"},
 }
